@@ -27,7 +27,7 @@ def run(tier):
                      "interior = faces whose two neighbouring gradients are interior (non periodic)"],
         mc_runs=[("MC_FVM1D", "MC_FVM1D.cfg" if tier == "quick" else "MC_FVM1D_f.cfg", 16)],
         groups=[("Judge_FVM1D", recs), ("Judge_FVM2D", recs2)], prefixes=["C11"], sig_of=sig_of,
-        symbolic=("Apa_Recon", ["InvLinearK", "InvLinearMuscl", "InvConstant", "InvSeam", "InvStencil", "InvMoments"],
+        symbolic=("Apa_Recon", ["InvLinearK", "InvLinearMuscl", "InvConstant", "InvSeam", "InvStencil", "InvStencilMirror", "InvMoments"],
                   "model level, beyond the lattice: Apa_Recon.tla proves with Apalache/Z3, for ALL non-uniform meshes (integer faces, "
                   "hence every rational mesh), ALL linear profiles and ALL k = kn/kd, that both face states of a cell with interior "
                   "gradients equal the profile at the face (k-schemes as xnum.extrapolk forms them, MUSCL with any idempotent limiter), "
